@@ -147,7 +147,12 @@ fn ret_expr(ret: &str, call: &str) -> Option<String> {
 }
 
 fn main() {
-    let dir = Path::new("/repo/rspirv/dr/build");
+    // VERIF_REPO lets the parallel evaluation scripts point a scratch copy of the simulator at a scratch
+    // copy of the repository; every registered check builds against /repo itself
+    println!("cargo:rerun-if-env-changed=VERIF_REPO");
+    let repo = std::env::var("VERIF_REPO").unwrap_or_else(|_| "/repo".to_string());
+    let dir_buf = Path::new(&repo).join("rspirv/dr/build");
+    let dir = dir_buf.as_path();
     let mut methods = vec![];
     for f in FILES {
         let p = dir.join(f);
